@@ -8,4 +8,5 @@ import ExaModel.Props.C05
 #print axioms Exa.Props.C05.send_only_established_partial
 #print axioms Exa.Props.C05.send_only_established_fails
 #print axioms Exa.Props.C05.leave_closes
+#print axioms Exa.Props.C05.transports_closed_or_current
 #print axioms Exa.Props.C05.up_down_alternate
